@@ -155,6 +155,9 @@ def run(ctx: Ctx, env):
             for n in sorted(counts):
                 for p in _typed(H, vcls, hn, n, funcs):
                     all_paths.append((f"{hn}/{n}", p, funcs, None))
+        from .common import check_shared_caches
+        check_shared_caches(ctx, [x[1] for x in all_paths], "R8.no-state-shared-between-visitors",
+                            "a later translation returns a part computed for another visitor/input", None, vs)
         for label, p, funcs, kind in all_paths:
             handler_q = p.entry.get("handler", "?")
             owner_short = ".".join(handler_q.rsplit(".", 2)[-2:])
